@@ -33,6 +33,22 @@ pub uninterp spec fn fmin(a: f64, b: f64) -> f64;
 pub uninterp spec fn fmax(a: f64, b: f64) -> f64;
 pub assume_specification [f64::min] (a: f64, b: f64) -> (r: f64) ensures r == fmin(a, b);
 pub assume_specification [f64::max] (a: f64, b: f64) -> (r: f64) ensures r == fmax(a, b);
+// float constants (rule R12c): Verus has no model of core::f64 associated consts; each is an
+// uninterpreted spec constant, distinct names so that swapping two of them is visible.
+pub uninterp spec fn spec_f64_max() -> f64;
+pub uninterp spec fn spec_f64_min() -> f64;
+pub uninterp spec fn spec_f64_min_positive() -> f64;
+pub uninterp spec fn spec_f64_nan() -> f64;
+pub uninterp spec fn spec_f64_infinity() -> f64;
+pub uninterp spec fn spec_f64_neg_infinity() -> f64;
+pub uninterp spec fn spec_f64_epsilon() -> f64;
+#[verifier::external_body] pub fn fconst_f64_max() -> (r: f64) ensures r == spec_f64_max() { f64::MAX }
+#[verifier::external_body] pub fn fconst_f64_min() -> (r: f64) ensures r == spec_f64_min() { f64::MIN }
+#[verifier::external_body] pub fn fconst_f64_min_positive() -> (r: f64) ensures r == spec_f64_min_positive() { f64::MIN_POSITIVE }
+#[verifier::external_body] pub fn fconst_f64_nan() -> (r: f64) ensures r == spec_f64_nan() { f64::NAN }
+#[verifier::external_body] pub fn fconst_f64_infinity() -> (r: f64) ensures r == spec_f64_infinity() { f64::INFINITY }
+#[verifier::external_body] pub fn fconst_f64_neg_infinity() -> (r: f64) ensures r == spec_f64_neg_infinity() { f64::NEG_INFINITY }
+#[verifier::external_body] pub fn fconst_f64_epsilon() -> (r: f64) ensures r == spec_f64_epsilon() { f64::EPSILON }
 // ---- shared byte-level prelude ---------------------------------------------
 // Format vocabulary written from the published BBI layout (Kent et al. 2010),
 // as arithmetic on byte values - not as calls to from_le_bytes/to_le_bytes.
